@@ -30,4 +30,13 @@ func main() {
 	}
 	repo, gen, facts := os.Args[1], os.Args[2], os.Args[3]
 	extractUnescape(repo, gen, facts)
+	extractPaging(repo, gen, facts)
+	extractReturns(repo, gen, facts)
+	extractC10(repo, gen, facts)
+	extractDbLocks(repo, gen, facts)
+	extractGlobals(repo, gen, facts)
+	extractGrammar(repo, gen, facts)
+	extractAccept(repo, gen, facts)
+	extractC15Create(repo, gen, facts)
+	extractC09Quirks(repo, gen, facts)
 }
